@@ -86,7 +86,7 @@ def main(tier):
     _db, posc = regtrace.posc_history()
     regtrace.validate(rep, bd, posc, "registration history of the shipped POSC database (AddUnitBase / AddUnit / AddCategory calls)", "posc")
     rng = random.Random(common.seed() + 14)
-    hist = regtrace.random_histories(rng, 400 if thorough else 80, 60 if thorough else 40, queries=False)
+    hist = regtrace.random_histories(rng, 2000 if thorough else 400, 60 if thorough else 40, queries=False)
     regtrace.validate(rep, bd, hist, "seeded deep registration histories with the projected registry after every call", "deep")
     rep.cov["binding_self_test"] = regtrace.self_test(bd, hist)
     rep.count(evaluations=stats["replayed"], nontrivial=stats["replayed"], traces=stats["replayed"])
